@@ -44,23 +44,31 @@ class delay:
     def init(s):
         s.q = []
         s.active = False
+        s.src_done = False
         s.term = False
+        s.d = 0
         s.clock = 0
 
     def done(s):
         return s.term
 
+    def on_subscribe(s, out):
+        # an absolute due time is the shift that brings the subscription instant to it (it may lie in the past: the shift is
+        # negative then and everything is delivered at once)
+        s.d = (s.duetime - out.now()) if s.absolute else s.duetime
+
     def enqueue(s, out, n):
         now = out.now()
-        s.q.append((n, now + s.duetime))
+        s.q.append((n, now + s.d))
         if not s.active:
             s.active = True
-            out.schedule_relative(s.duetime)
+            out.schedule_relative(s.d)
 
     def on_next(s, out, x):
         s.enqueue(out, OnNext(x))
 
     def on_completed(s, out):
+        s.src_done = True
         s.enqueue(out, OnCompleted())
 
     def on_error(s, out, e):
@@ -83,3 +91,57 @@ class delay:
                 out.schedule_relative(max(0, s.q[0][1] - now))
             else:
                 s.active = False
+
+
+class delay_with_mapper:
+    """delay_with_mapper(mapper): every element x is held until the observable mapper(x) first emits or completes - then x is
+    delivered, once; elements whose delays fire in another order are delivered in that order.  The output completes when the
+    source has completed and no element is held any more; an error of the source, of mapper or of a delay ends it at once."""
+
+    def init(s):
+        s.pending = 0
+        s.at_end = False
+        s.term = False
+
+    def done(s):
+        return s.term
+
+    def valid(s):
+        return s.pending >= 0
+
+    def on_next(s, out, x):
+        try:
+            d = s.mapper(x)
+        except Exception as e:
+            s.term = True
+            out.on_error(e)
+            return
+        s.pending += 1
+        out.subscribe(d)
+
+    def on_error(s, out, e):
+        s.term = True
+        out.on_error(e)
+
+    def on_completed(s, out):
+        s.at_end = True
+        if s.pending == 0:
+            s.term = True
+            out.on_completed()
+
+    def release(s, out, x):
+        out.on_next(x)
+        s.pending -= 1
+        if s.at_end and s.pending == 0:
+            s.term = True
+            out.on_completed()
+
+    def delay_next(s, out, x, _):
+        s.release(out, x)
+
+    def delay_completed(s, out, x):
+        s.release(out, x)
+
+    def delay_error(s, out, x, e):
+        s.term = True
+        out.on_error(e)
